@@ -289,33 +289,34 @@ EvPut(W, x, srcs, i) ==
             IF r[1] \in {"ok", "exists"} THEN r ELSE EvPut(W, x, srcs, i + 1)
 
 \* objects of one source shard; acc = [W, cnt, handled (in call order, once per source copy), fail]
-RECURSIVE EvObjs(_, _, _, _, _, _)
-EvObjs(acc, src, lst, srcs, ign, fh) ==
+RECURSIVE EvObjs(_, _, _, _, _, _, _)
+EvObjs(acc, src, lst, srcs, ign, fh, fhe) ==
   IF lst = <<>> \/ acc.fail THEN acc
   ELSE LET x == Head(lst) IN
        IF ShardGet(acc.W, src, x, FALSE) # "ok"
-         THEN (IF ign THEN EvObjs(acc, src, Tail(lst), srcs, ign, fh) ELSE [acc EXCEPT !.fail = TRUE])
+         THEN (IF ign THEN EvObjs(acc, src, Tail(lst), srcs, ign, fh, fhe) ELSE [acc EXCEPT !.fail = TRUE])
          ELSE LET r == EvPut(acc.W, x, srcs, 1) IN
-              CASE r[1] = "ok" -> EvObjs([acc EXCEPT !.W = r[2], !.cnt = @ + 1], src, Tail(lst), srcs, ign, fh)
-                [] r[1] = "exists" -> EvObjs(acc, src, Tail(lst), srcs, ign, fh)
-                [] OTHER -> IF fh THEN EvObjs([acc EXCEPT !.cnt = @ + 1, !.handled = Append(@, x)], src, Tail(lst), srcs, ign, fh)
+              CASE r[1] = "ok" -> EvObjs([acc EXCEPT !.W = r[2], !.cnt = @ + 1], src, Tail(lst), srcs, ign, fh, fhe)
+                [] r[1] = "exists" -> EvObjs(acc, src, Tail(lst), srcs, ign, fh, fhe)
+                \* no shard took the object: the fault handler decides; its error aborts the evacuation (ignoreErrors does not apply)
+                [] OTHER -> IF fh /\ ~fhe THEN EvObjs([acc EXCEPT !.cnt = @ + 1, !.handled = Append(@, x)], src, Tail(lst), srcs, ign, fh, fhe)
                             ELSE [acc EXCEPT !.fail = TRUE]
 
 \* metabase.ListWithCursor: physical objects that are not tombstoned / default-marked, in id order
 EvList(W, s) == SetToSeq({x \in W.meta[s] : InGarbage(W, s, x) = "avail"})
 
-RECURSIVE EvShards(_, _, _, _, _)
-EvShards(acc, q, srcs, ign, fh) ==
+RECURSIVE EvShards(_, _, _, _, _, _)
+EvShards(acc, q, srcs, ign, fh, fhe) ==
   IF q = <<>> \/ acc.fail THEN acc
   ELSE LET s == Head(q) IN
-       IF NoMeta(acc.W, s) THEN EvShards(acc, Tail(q), srcs, ign, fh)
-       ELSE EvShards(EvObjs(acc, s, EvList(acc.W, s), srcs, ign, fh), Tail(q), srcs, ign, fh)
+       IF NoMeta(acc.W, s) THEN EvShards(acc, Tail(q), srcs, ign, fh, fhe)
+       ELSE EvShards(EvObjs(acc, s, EvList(acc.W, s), srcs, ign, fh, fhe), Tail(q), srcs, ign, fh, fhe)
 
-EvacuateF(W, q, ign, fh) ==
+EvacuateF(W, q, ign, fh, fhe) ==
   LET srcs == SeqToSet(q) IN
   IF (\E s \in srcs : ~ReadOnly(W, s)) \/ (NS - Cardinality(srcs) < 1 /\ ~fh)
     THEN [W |-> W, cnt |-> 0, handled |-> <<>>, fail |-> TRUE]
-    ELSE EvShards([W |-> W, cnt |-> 0, handled |-> <<>>, fail |-> FALSE], q, srcs, ign, fh)
+    ELSE EvShards([W |-> W, cnt |-> 0, handled |-> <<>>, fail |-> FALSE], q, srcs, ign, fh, fhe)
 
 (* ------------------------------------------------------------------ state machine *)
 NoOp == [st |-> "idle", ord |-> <<>>, i |-> 0, good |-> <<>>, nm |-> {}, pre |-> FALSE]
@@ -441,11 +442,11 @@ Without(W, S) == [W EXCEPT !.fget = [s \in Shards |-> W.fget[s] \/ s \in S]]
 \* IsLocked answers "e" (error) when it meets a degraded shard before a shard with the lock: that is "unknown", not a status
 LockChanged(a, b) == a # "e" /\ b # "e" /\ a # b
 
-DoEvacuate(q, ign, fh) ==
+DoEvacuate(q, ign, fh, fhe) ==
   /\ InFlight = {}
   /\ LET W0 == Cur
          srcs == SeqToSet(q)
-         r == EvacuateF(W0, q, ign, fh)
+         r == EvacuateF(W0, q, ign, fh, fhe)
          W1 == r.W
          roSrcs == {s \in srcs : W0.mode[s] = "ro"}
          avail == {x \in Ids : \E s \in roSrcs : ShardGet(W0, s, x, FALSE) = "ok"}
@@ -472,7 +473,7 @@ Step(e) ==
     [] e.ev = "Epoch" -> DoEpoch(e.ep)
     [] e.ev = "SetMode" -> DoSetMode(e.s, e.m)
     [] e.ev = "Fail" -> DoFail(e.s, e.fp, e.fg)
-    [] e.ev = "Evacuate" -> DoEvacuate(e.srcs, e.ign, e.fh)
+    [] e.ev = "Evacuate" -> DoEvacuate(e.srcs, e.ign, e.fh, e.fhe)
 
 Obj(k, t, x, o) == [kind |-> k, tgt |-> t, exp |-> x, ord |-> o, pord |-> o]
 
@@ -523,8 +524,10 @@ Events ==
   \cup (IF "SetMode1" \in Ops THEN [ev : {"SetMode"}, s : {1}, m : Modes] ELSE {})   \* only shard 1 changes its mode
   \cup (IF "FailPut" \in Ops THEN [ev : {"Fail"}, s : Shards, fp : BOOLEAN, fg : {FALSE}] ELSE {})
   \cup (IF "FailGet" \in Ops THEN [ev : {"Fail"}, s : Shards, fp : {FALSE}, fg : BOOLEAN] ELSE {})
-  \cup (IF "Evacuate" \in Ops THEN [ev : {"Evacuate"}, srcs : SrcSeqs, ign : BOOLEAN, fh : BOOLEAN] ELSE {})
-  \cup (IF "EvacuateQ" \in Ops THEN [ev : {"Evacuate"}, srcs : SrcSeqs, ign : {FALSE}, fh : BOOLEAN] ELSE {})   \* quick: errors never ignored
+  \* fh = a fault handler is given, fhe = it returns an error
+  \cup (IF "Evacuate" \in Ops THEN [ev : {"Evacuate"}, srcs : SrcSeqs, ign : BOOLEAN, fh : BOOLEAN, fhe : {FALSE}]
+                                   \cup [ev : {"Evacuate"}, srcs : SrcSeqs, ign : BOOLEAN, fh : {TRUE}, fhe : {TRUE}] ELSE {})
+  \cup (IF "EvacuateQ" \in Ops THEN [ev : {"Evacuate"}, srcs : SrcSeqs, ign : {FALSE}, fh : BOOLEAN, fhe : {FALSE}] ELSE {})   \* quick: errors never ignored
 
 \* environment restriction used by the "repaired world" configuration
 EnvOK(e) ==
@@ -643,6 +646,17 @@ ScenarioHit ==
              ev.on /\ res.cnt >= 2 /\ \E l \in Ids : Kind(l) = "lock" /\ (\E s \in ev.srcs : l \in meta[s]) /\ (\E s \in Shards \ ev.srcs : l \in meta[s])
         [] Scenario = "ev-handler" ->        \* C19: the fault handler took an object
              ev.on /\ res.handled # <<>>
+        [] Scenario = "ev-lock-travels" ->   \* C08: the only copy of a LOCK and its target are moved together
+             ev.on /\ res.cnt = 2 /\ (\A s \in Shards : \A t \in meta[s] : Kind(t) # "ts")
+               /\ \E l \in Ids : Kind(l) = "lock" /\ (\E s \in ev.srcs : l \in meta[s] /\ Tgt(l) \in blob[s])
+                                   /\ (\E s \in Shards \ ev.srcs : l \in meta[s] /\ Tgt(l) \in blob[s])
+        [] Scenario = "ev-two-sources" ->    \* C19: an object held by two evacuated shards (and by no other) is moved
+             ev.on /\ Cardinality(ev.srcs) >= 2 /\ res.cnt >= 1
+               /\ \E x \in Ids : Cardinality({s \in ev.srcs : x \in blob[s]}) >= 2 /\ Cardinality({s \in Shards \ ev.srcs : x \in blob[s]}) = 1
+                                  /\ cat[x].pord[NS] \notin ev.srcs      \* every source meets the other source first
+                                  /\ res.cnt = Cardinality({y \in Ids : \E s \in Shards \ ev.srcs : y \in blob[s]})
+        [] Scenario = "ev-handler-error" ->  \* C19: the fault handler refuses an object although errors are ignored => evacuation fails
+             LastIs("Evacuate") /\ lastev.fhe /\ lastev.ign /\ res.c = "fail"
         [] Scenario = "ev-partial-removal" -> "partial-removal" \in C19Classes
         [] OTHER -> FALSE
 NoScenario == ~ScenarioHit
